@@ -2,7 +2,7 @@
 # usage: confirm_mutant.sh <ID>  -- in the scratch worktree /tmp/wt_<ID> (patch applied, demo present):
 #   demo fails with the patch, the existing suite passes with it, the demo passes without it.
 ID=$1; W=/tmp/wt_$ID; case "$ID" in /*) W=$ID; ID=$(basename $W);; esac; cd $W || exit 2
-DEMO=$(ls tests/seeded_* 2>/dev/null | head -1); T=$(basename "$DEMO" .rs)
+DEMO=$(ls tests/seeded* 2>/dev/null | head -1); T=$(basename "$DEMO" .rs)
 FEAT=""; grep -q 'loom::future' "$DEMO" && FEAT="--features futures"
 grep -q 'checkpoint' "$DEMO" && FEAT="--features checkpoint"
 git apply --check -R _mutant/patch.diff 2>/dev/null || { git checkout -- src; git apply _mutant/patch.diff; }
